@@ -1,6 +1,8 @@
 """C17 — file imports cannot escape the configured root directory."""
+import json
 import os
 import re
+import shutil
 import subprocess
 
 import checklib
@@ -97,65 +99,287 @@ def _sb(h):
     return b"" if h == "-" else bytes.fromhex(h)
 
 
+# ------------------------------------------------------------------ one-sided comparison
+# The property constrains what may be OPENED and RETURNED, not that something must be: per path the real code
+# is wrong only if it returns content of a file outside the root, content together with an error, content of
+# another file than the path names, content the model does not predict without an observed open, or if it OPENS
+# (hook) a string that the Spec `inside` forbids. A stricter rejection, a cache hit after the test, an error
+# although the file exists, a differently spelled open that is inside = notes.
+
+def _obs(line):
+    out = []
+    for x in line.split(","):
+        ev, _, res = x.rpartition("=")
+        out.append((ev, res) if "=" in x else ("", x))
+    return out
+
+
+def _one(gev, gres, mev, mres):
+    """('ok'|'note'|'judge'|'viol', text)"""
+    if gres.startswith("O"):
+        return "viol", "content of a file OUTSIDE the root returned"
+    if gres == "E+":
+        return "viol", "content returned together with an error"
+    if not (gres in ("rej", "E") or re.fullmatch(r"I\d+", gres)):
+        return "viol", "unexpected result " + gres[:60]
+    if (gev, gres) == (mev, mres):
+        return "ok", ""
+    noev = gev in ("-", "?", "")
+    if gres.startswith("I"):
+        if mres.startswith("I") and mres != gres:
+            return "viol", "content of another file than the path names (model: %s)" % mres
+        if noev:
+            if mres == gres:
+                return ("ok", "") if gev == "?" or mev == "?" else ("note", "content without an observed open (cache after the test?)")
+            return "viol", "content without an observed open where the model predicts " + mres
+        if gev == mev:
+            return "viol", "content although the opened path names no file in the tree"
+        return "judge", ""
+    # the real code answers with an error
+    if noev:
+        if mres in ("rej", "E") and mev in ("-", "?", ""):
+            return "ok", ""
+        return "note", "stricter: error and no open where the model opens"
+    if gev == mev:
+        return "note", "error although the opened file exists"
+    return "judge", ""
+
+
+def _line_verdicts(g, m):
+    go, mo = _obs(g), _obs(m)
+    if len(go) != len(mo):
+        return [("viol", "result has %d entries, the model %d" % (len(go), len(mo)))]
+    out = []
+    for (gev, gres), (mev, mres) in zip(go, mo):
+        worst = ("ok", "")
+        for cls in gres.split("+"):
+            v = _one(gev, cls, mev, mres)
+            if ["ok", "note", "judge", "viol"].index(v[0]) > ["ok", "note", "judge", "viol"].index(worst[0]):
+                worst = v
+        out.append(worst)
+    return out
+
+
+def equal(g, m, attrs):
+    """pure: False only for a definite violation; differences that need the driver's judgement pass here and are judged in post()"""
+    if g == m:
+        return True
+    if "=" not in g or "=" not in m or g.startswith(("PANIC", "CRASH", "HANG", "bad-payload", "CREATE-ERROR")):
+        return False
+    return all(v[0] != "viol" for v in _line_verdicts(g, m))
+
+
+def _fields(payload):
+    f = payload.split(" ")
+    k = f[0].upper()
+    root_i = 4 if k in "TUV" else 3
+    return k, f, root_i
+
+
+def _judge_many(ctx, items):
+    """items: (payload, canonical opened string as hex); one driver run; -> [('in'|'out'|'bad', file index|'-')]"""
+    lines = {}
+    for j, (payload, q) in enumerate(items):
+        k, f, root_i = _fields(payload)
+        lines[j] = " ".join(["K", f[1], f[2], f[root_i], q])
+    if not lines:
+        return []
+    res = checklib.run_driver(ctx, ctx.prop, lines, shards=4)
+    out = []
+    for j in range(len(items)):
+        r = res.get(j, ("bad", {}))[0]
+        out.append(tuple(r.split(",")) if "," in r else ("bad", "-"))
+    return out
+
+
+def _judge_open(ctx, payload, gev_full):
+    """ask the model about every string the real code opened: ('in'|'out', file index|'-') per string"""
+    return _judge_many(ctx, [(payload, q) for q in gev_full.split("|")])
+
+
+def _run_lines(ctx, payloads, marked=False, strace_out=None):
+    inp = os.path.join(ctx.work, "c17-lines-%d.txt" % len(os.listdir(ctx.work)))
+    with open(inp, "w") as fh:
+        for j, pl in enumerate(payloads):
+            fh.write("%d\t%s\n" % (j, pl))
+    cmd = [ctx.harness, ctx.prop, "-tool", "runlines-marked" if marked else "runlines", inp]
+    if strace_out:
+        cmd = ["strace", "-f", "-xx", "-s", "8192", "-e", "trace=%file", "-o", strace_out] + cmd
+    pr = subprocess.run(cmd, stdout=subprocess.PIPE, stderr=subprocess.PIPE, text=True, cwd=ctx.work,
+                        env=dict(checklib.GOENV, VERIF_REPO=checklib.REPO), timeout=900)
+    out, base = {}, ""
+    for l in pr.stdout.splitlines():
+        if l.startswith("#base\t"):
+            base = l.split("\t", 1)[1]
+        elif "\t" in l and l.split("\t", 1)[0].isdigit():
+            out[int(l.split("\t", 1)[0])] = l.split("\t", 1)[1]
+    return out, base
+
+
+def _single(payload, k):
+    """the payload of path number k of a batched line, as a line of its own"""
+    kind, f, _ = _fields(payload)
+    nine = kind in "TUV"
+    pre_i, dep_i, alp_i = (6, 7, 8) if nine else (5, 6, 7)
+    if kind in "JC" or len(f) != (9 if nine else 8) or f[dep_i] == "0":
+        return None
+    alpha = _sb(f[alp_i]).split(b",")
+    ext = []
+    for _ in range(int(f[dep_i])):
+        ext.append(alpha[k % len(alpha)])
+        k //= len(alpha)
+    ext.reverse()
+    path = b"/".join(ext) if f[pre_i] == "~" else _sb(f[pre_i]) + b"".join(b"/" + e for e in ext)
+    f = list(f)
+    f[pre_i], f[dep_i], f[alp_i] = (path.hex() if path else "-"), "0", "-"
+    return " ".join(f)
+
+
+def _judge_path(ctx, payload, gobs, mobs):
+    """final verdict for one single-path observation that needs judging"""
+    gev, gres = gobs
+    verdicts = _judge_open(ctx, payload, gev)
+    for where, idx in verdicts:
+        if where != "in":
+            return "viol", "the real code OPENS a path that is not inside the root (hook), result %s" % gres
+    # the content: what the model predicts for this path, or else the file the LAST opened string names
+    if gres.startswith("I") and gres != mobs[1] and verdicts and verdicts[-1][1] != gres[1:]:
+        return "viol", "content %s is not the file the opened path names (%s)" % (gres, verdicts[-1][1])
+    return "note", "a differently spelled / shorter sequence of opens, all inside the root"
+
+
+def _strace_sample(ctx, cases, n):
+    """run a sample of R / I / J lines under strace and judge EVERY path handed to a file system call while a line runs"""
+    if not shutil.which("strace"):
+        ctx.notes.append("strace not available: file accesses that bypass the hook are covered by the source fact only")
+        return
+    idxs = [i for i in sorted(cases) if cases[i][0].upper() in "RIJ"]
+    idxs = idxs[:: max(1, len(idxs) // n)][:n]
+    trace = os.path.join(ctx.work, "c17-strace.txt")
+    try:
+        out, base = _run_lines(ctx, [cases[i] for i in idxs], marked=True, strace_out=trace)
+    except Exception as e:
+        ctx.notes.append("strace sample failed to run: %r" % (e,))
+        return
+    if not base or not os.path.exists(trace):
+        ctx.notes.append("strace sample produced no trace")
+        return
+    par1, par2 = os.path.dirname(base), os.path.dirname(os.path.dirname(base))
+    cur, seen, keys = None, 0, {}
+    for l in open(trace, errors="replace"):
+        m = re.match(r"\d+\s+(\w+)\((.*)", l)
+        if not m:
+            continue
+        strs = re.findall(r'"((?:\\x[0-9a-f]{2})*)"', m.group(2))
+        if not strs:
+            continue
+        path = bytes.fromhex(strs[0].replace("\\x", "")).decode("latin1")
+        if path.startswith("/c17-marker/"):
+            t = path.rsplit("/", 1)[1]
+            cur = int(t) if t.isdigit() else None
+            continue
+        if cur is None or m.group(1) in ("chdir", "execve", "getcwd"):
+            continue
+        if path.startswith(("/proc/", "/sys/", "/dev/", "/etc/", "/usr/", "/lib")):
+            continue
+        if m.group(1) in ("newfstatat", "stat", "lstat", "statx", "fstatat64") and (
+                path == "." or (path.startswith("/") and (base + "/").startswith(path.rstrip("/") + "/"))):
+            continue  # os.Getwd's probing of "." and $PWD (an ancestor of the sandbox), not a path of the import
+        seen += 1
+        canon = path.replace(base[1:], "@B").replace(par1[1:], "@1").replace(par2[1:], "@2").replace(os.path.basename(base), "@:")
+        if len(keys) < 20000:
+            keys.setdefault((cur, canon), m.group(1))
+    klist = sorted(keys)
+    verdicts = _judge_many(ctx, [(cases[idxs[c]], q.encode("latin1").hex() or "-") for c, q in klist])
+    bad = [(c, keys[(c, q)], q) for (c, q), v in zip(klist, verdicts) if v[0] != "in"]
+    ctx.coverage["strace_lines"] = len(idxs)
+    ctx.coverage["strace_file_syscalls_judged"] = seen
+    for cur, sysc, canon in bad[:2]:
+        i = idxs[cur]
+        rp = checklib.write_replay(ctx, "input", {"payload": cases[i], "readable": decode(cases[i]), "syscall": sysc, "path": canon},
+                                   "every path handed to a file system call while the line runs is inside the root (Spec inside)",
+                                   "%s(%s)" % (sysc, canon), "strace -f -e trace=%%file harness C17 -tool runlines-marked <file with this payload>",
+                                   tag="strace")
+        checklib.violation(ctx, rp, "file access outside the root seen by strace (not at the hook): %s(%r)" % (sysc, canon[:100]))
+    if bad:
+        ctx.coverage["strace_outside_accesses"] = len(bad)
+
+
 def post(ctx, cases, gores, model):
-    """a file outside the root came back: a violation whatever the model says"""
-    n = 0
+    notes, tojudge, nviol = {}, [], 0
     by_file = {}
     for i in sorted(cases, key=lambda i: (len(cases[i]), i)):
-        g = gores.get(i, "")
-        if cases[i][0] in KINDS and any(x.split("=")[-1].startswith("O") for x in g.split(",")):
-            n += 1
-            for x in g.split(","):
-                if x.split("=")[-1].startswith("O"):
-                    by_file[x.split("=")[-1]] = by_file.get(x.split("=")[-1], 0) + 1
-            if n <= 2:
-                rp = checklib.write_replay(ctx, "input", {"payload": cases[i], "readable": decode(cases[i])},
-                                           "no O<n> entry (resolve_confined)", g,
-                                           f"./check {ctx.prop} --replay <this file>", tag="outside")
-                checklib.violation(ctx, rp, f"content of a file OUTSIDE the root returned: go={g[:80]!r}")
-    ctx.coverage["outside_results"] = n
-    # a line that carries many paths prints digests of the opened strings: on a mismatch run the first differing
-    # path alone (unbatched), where both sides print the full strings, and report that as the replay
-    expanded = 0
-    for i in sorted(cases, key=lambda i: (len(cases[i]), i)):
+        if cases[i][0] not in KINDS + "Cc":
+            continue
         g, m = gores.get(i, ""), model.get(i, ("", {}))[0]
-        if cases[i][0] not in KINDS or g == m or "," not in g:
+        for x in g.split(","):
+            r = x.split("=")[-1]
+            for cls in r.split("+"):
+                if cls.startswith("O"):
+                    by_file[cls] = by_file.get(cls, 0) + 1
+        if g == m or "=" not in g or "=" not in m:
             continue
-        single = _unbatch(cases[i], g, m)
-        if single is None:
-            continue
-        expanded += 1
-        if expanded > 2:
-            break
-        try:
-            pr = subprocess.run([ctx.harness, ctx.prop, "-one", single], stdout=subprocess.PIPE, stderr=subprocess.STDOUT, text=True,
-                                cwd=ctx.work, env=checklib.GOENV, timeout=120)
-            lines = [l for l in pr.stdout.splitlines() if l.strip()]
-            go1 = lines[0] if lines else "NO-OUTPUT"
-            m1 = checklib.run_driver(ctx, ctx.prop, {0: single}, shards=1).get(0, ("MISSING", {}))[0]
-        except Exception as e:  # the unbatched rerun is a convenience: the batched line is reported anyway
-            ctx.notes.append("unbatched rerun failed: %r" % (e,))
-            continue
-        if go1 != m1:
-            rp = checklib.write_replay(ctx, "input", {"payload": single, "readable": decode(single), "found_in_batched_line": decode(cases[i])},
-                                       m1, go1, f"./check {ctx.prop} --replay <this file>", tag="unbatched")
-            checklib.violation(ctx, rp, "go=%r model=%r (first differing path of a batched line, run alone: opened strings in full, hex)"
-                               % (go1[:120], m1[:120]))
-        else:
-            ctx.notes.append("a batched line differs (%r vs %r) but its first differing path agrees when run alone: the result depends on "
-                             "the preceding paths of the line (state in the locator / package?)" % (g[:60], m[:60]))
+        for k, (v, text) in enumerate(_line_verdicts(g, m)):
+            if v == "note":
+                notes[text] = notes.get(text, 0) + 1
+            elif v == "judge":
+                tojudge.append((i, k))
+            elif v == "viol":
+                nviol += 1
+    ctx.coverage["outside_results"] = sum(by_file.values())
     if by_file:
         ctx.coverage["outside_by_file"] = by_file
+    # strings the real code opened that differ from the model's: full strings (batched lines print digests: run the path
+    # alone), then the model judges them against the Spec
+    CAP = 300
+    singles = []
+    for i, k in tojudge[:CAP]:
+        sp = _single(cases[i], k)
+        singles.append(sp if sp is not None else cases[i])
+    judged_viol = 0
+    if singles:
+        try:
+            gout, _ = _run_lines(ctx, singles)
+            mout = checklib.run_driver(ctx, ctx.prop, dict(enumerate(singles)), shards=4)
+        except Exception as e:
+            gout, mout = {}, {}
+            ctx.notes.append("judging run failed: %r" % (e,))
+        for j, sp in enumerate(singles):
+            g1, m1 = gout.get(j, "MISSING"), mout.get(j, ("MISSING", {}))[0]
+            if "=" not in g1 or "=" not in m1:
+                continue
+            for (v, text), gobs, mobs in zip(_line_verdicts(g1, m1), _obs(g1), _obs(m1)):
+                if v == "judge":
+                    v, text = _judge_path(ctx, sp, gobs, mobs)
+                if v == "note":
+                    notes[text] = notes.get(text, 0) + 1
+                elif v == "viol":
+                    judged_viol += 1
+                    if judged_viol <= 2:
+                        rp = checklib.write_replay(ctx, "input", {"payload": sp, "readable": decode(sp)}, m1, g1,
+                                                   f"./check {ctx.prop} --replay <this file>", tag="judged")
+                        checklib.violation(ctx, rp, "%s: go=%r model=%r" % (text, g1[:100], m1[:100]))
+    if len(tojudge) > CAP:
+        notes["differently spelled opens not judged individually (beyond the first %d)" % CAP] = len(tojudge) - CAP
+    ctx.coverage["one_sided_notes"] = notes
+    ctx.coverage["opens_judged_against_inside"] = min(len(tojudge), CAP)
+    for text, n in sorted(notes.items()):
+        ctx.notes.append("%d paths: %s (allowed by the property; noted)" % (n, text))
+    # the dynamic backstop for file accesses the hook does not see
+    _strace_sample(ctx, cases, 600 if ctx.tier == "thorough" else 40)
     ctx.coverage["paths_resolved"] = sum(len(g.split(",")) for i, g in gores.items() if cases.get(i, " ")[0] in KINDS)
     ctx.coverage["files_opened_inside"] = sum(sum(1 for x in g.split(",") if x.split("=")[-1].startswith("I"))
                                               for i, g in gores.items() if cases.get(i, " ")[0] in KINDS)
     ctx.coverage["opens_observed_at_the_hook"] = sum(sum(1 for x in g.split(",") if x[:1] not in "-?")
                                                      for i, g in gores.items() if cases.get(i, " ")[0] in KINDS)
-    hookless = sum(1 for i in cases if cases[i][0] in "rijtuvn")
+    hookless = sum(1 for i in cases if cases[i][0] in "rijtuvnc")
     ctx.coverage["hook_present"] = hookless == 0
     if hookless:
-        ctx.notes.append("the tree under test has no verifhook.At(\"c17.open\", …) point in FileImportLocator.Resolve: the opened paths are "
-                         "NOT observed in this run (content / error only)")
+        # the open itself is the observable of this property: a tree without the instrumentation point cannot be checked
+        rp = checklib.write_replay(ctx, "obligation", {"missing": 'verifhook.At("c17.open", <path>) directly before the read in FileImportLocator.Resolve'},
+                                   "the instrumentation point c17.open exists in package util (hooks/C17.patch)", "not found / never fires",
+                                   f"grep -n c17.open {checklib.REPO}/util/*.go", tag="hook")
+        checklib.violation(ctx, rp, "instrumentation removed: no c17.open point in FileImportLocator.Resolve - which files it opens cannot be observed")
     # obligations = property statements; regenerated source facts are listed apart
     thms = ctx.coverage.get("theorems", [])
     facts = [t for t in thms if t.startswith("Ecal.Props.C17Facts.")]
@@ -167,7 +391,50 @@ def post(ctx, cases, gores, model):
     ctx.coverage["source_fact_theorems"] = facts
 
 
-KINDS = "RIJTUVNrijtuvn"
+def replay(ctx, path):
+    """one case again: the real code, the model, the one-sided judgement"""
+    obj = json.load(open(path))
+    case = obj.get("case", {})
+    if "payload" not in case:
+        return checklib.replay(ctx, SPEC, path)
+    ctx.harness = checklib.go_build(ctx)
+    subprocess.run(["lake", "build", "driver"], cwd=checklib.LEAN, stdout=subprocess.DEVNULL, stderr=subprocess.DEVNULL)
+    payload = case["payload"]
+    gout, _ = _run_lines(ctx, [payload])
+    g = gout.get(0, "MISSING")
+    m = checklib.run_driver(ctx, ctx.prop, {0: payload}, shards=1).get(0, ("MISSING", {}))[0]
+    print("case  :", case.get("readable", payload))
+    print("go    :", g[:400])
+    print("model :", m[:400])
+    ok = True
+    if g != m:
+        if "=" not in g or "=" not in m:
+            ok = False
+        else:
+            for k, ((v, text), gobs, mobs) in enumerate(zip(_line_verdicts(g, m), _obs(g), _obs(m))):
+                if v == "judge":
+                    sp = _single(payload, k) or payload
+                    g1 = _run_lines(ctx, [sp])[0].get(0, "MISSING")
+                    v, text = _judge_path(ctx, sp, _obs(g1)[0], mobs) if "=" in g1 else ("viol", "no result")
+                if v != "ok":
+                    print("path %d: %s: %s (go %s, model %s)" % (k, v, text, "=".join(gobs)[:80], "=".join(mobs)[:80]))
+                if v == "viol":
+                    ok = False
+    if case.get("syscall"):
+        # found by the strace sample: run this one line under strace again and judge every path it hands to the file system
+        before = len(ctx.violations)
+        _strace_sample(ctx, {0: payload}, 1)
+        print("strace: %d file system calls judged, %d outside the root" % (ctx.coverage.get("strace_file_syscalls_judged", 0),
+                                                                          ctx.coverage.get("strace_outside_accesses", 0) or 0))
+        if len(ctx.violations) > before:
+            return 1
+    print("agree :", ok)
+    if not ok:
+        print(f"VIOLATION property={ctx.prop} replay={os.path.relpath(path, checklib.VERIF)}")
+    return 0 if ok else 1
+
+
+KINDS = "RIJTUVNrijtuvn"   # + C (concurrent) lines
 
 SPEC = dict(
     lean_modules=["Ecal.Props.C17", "Ecal.Props.C17Facts"],
@@ -187,12 +454,22 @@ SPEC = dict(
           "{existing, MISSING, a file, DANGLING symlink, symlink to a directory (modelled as its target), '', '.', none}. (e) J lines "
           "= import statements in programs parsed under source NAMES {plain, with directories, starting with '..', absolute, equal "
           "to files outside the root, ''} x import paths (plain, './', '../' prefixed, leading to module files that import again). "
-          "Compared per path, exactly: the strings that reached the open (verifhook point c17.open directly before ReadFile; B-"
-          "independent spelling) and what came back: rej (an error and no open), E, E+ (error together with content), I<n> / O<n> (content "
-          "of file n inside / OUTSIDE the root; any O is a violation whatever the model says). Regenerated three-valued source facts "
-          "(locator roots; calls reachable from Resolve; receiver and argument of Resolve in importRuntime.Eval) are Lean obligations "
-          "of their own; one that is not established amplifies (d), (e) and the extended alphabet. Non-trivial = a P line, or another "
-          "line on which at least one path opens an existing file."),
+          "C lines = ONE locator used by two goroutines (an outside and an inside path, 2x10^4 / 2x10^5 rounds). "
+          "Compared per path, ONE-SIDED (the property says what may be opened and returned, not that something must be): a violation "
+          "is content of a file OUTSIDE the root (O<n>, whatever the model says), content together with an error (E+), content of "
+          "another file than the path names, content without an observed open that the model does not predict, and any string "
+          "reaching the open (verifhook point c17.open directly before ReadFile) that the Spec `inside` forbids (the driver judges the "
+          "real code's string with insideB, proved equal to `inside`; batched lines print digests, a differing path is run alone "
+          "first). A stricter rejection, a cache hit after the test, an error although the file exists, a differently spelled open "
+          "that is inside = notes in the evidence. A tree WITHOUT the c17.open point is a violation (the open is the observable). "
+          "Dynamic backstop: a sample of R/I/J lines (40 quick, 600 thorough) runs under `strace -f -e trace=%file`; every path handed "
+          "to a file system call while a line runs is judged against `inside` (Getwd's stat of '.'/$PWD, /proc /sys /dev /etc /usr /lib "
+          "ignored). Regenerated three-valued source facts (Option Bool in Lean; only REFUTED breaks; unknown is noted and enlarges the "
+          "T/U/V/J/extended-alphabet cases, which re-run the same tree and alphabets and so have no trigger of their own for what was "
+          "unknown): locator roots; no other file access (calls reachable from Resolve with helpers followed at their call site: none "
+          "before the test / in its rejecting branch / handed anything but the tested LOCAL variable; none at all reachable from "
+          "importRuntime.Eval; cli/tool's own entry / log / config reads listed); receiver and argument of Resolve in Eval. "
+          "Non-trivial = a P line, or another line on which at least one path opens an existing file."),
     exhaustive="all element sequences up to the stated length for every listed root spelling; all pairs for the primitives",
     trusted_base=[
         "the kernel's path walk agrees with the lexical walk on cleaned paths in a tree without symbolic links (the harness's tree has none)",
@@ -201,31 +478,43 @@ SPEC = dict(
         "file-system library functions, calls qualified through the files' import tables (no go/types: the source importer does not "
         "resolve modules offline); they follow local definitions, writes to struct fields and same-package calls; the polarity of a "
         "guard is not analysed; anything else is reported as unknown, never as a negative",
-        "NOT CHECKED: FileImportLocator.Resolve is stateless (one locator is reused within a line and package state would show up "
-        "only through the order of the cases of a shard)",
+        "strace (when installed) for the sample of lines run under it; its -xx string output and the marker stats that attribute "
+        "system calls to lines",
+        "statelessness of Resolve is checked only as far as the cases go: one locator per line, two goroutines on one locator in the "
+        "C lines, package state shared within a shard, plus the source fact that the tested value is a local variable",
     ],
     assumptions=["no symbolic links below or above the root (the property is lexical)",
-                 "Unix path semantics (separator '/', no volume names)"],
+                 "Unix path semantics (separator '/', no volume names)",
+                 "the tree under test keeps the instrumentation point c17.open directly before the read in Resolve (checked: its absence "
+                 "is reported as a violation)",
+                 "file accesses of Resolve / importRuntime.Eval other than the hooked read are excluded by the source fact (go/ast, "
+                 "unknown = not an alarm) and by the strace sample, not by the model; code gated by environment variables or other "
+                 "triggers the cases do not set is covered by the source fact only",
+                 "cli/tool reads its own entry file, log file and <dir>/.ecal.json by design (not imports)"],
     decode=decode,
     post=post,
     extract=extract,
+    equal=equal,
 )
 
 META = dict(
-    technique=("Lean 4 theorems over an element-list model of filepath.Clean/Join/Rel, of FileImportLocator.Resolve and of the import "
-               "statement (instantiated with source facts regenerated on every run) + differential correspondence with Go's filepath "
-               "and with Resolve / import / the command line tool in a real directory tree, observing the open itself"),
-    level_text=("Proof about the model: for all byte strings root and p, if the MODEL of Resolve opens q then q is cleaned, has the "
-                "cleaned root's elements as a prefix followed only by ordinary names, and the node it denotes from any working "
-                "directory is the root's node extended downwards; otherwise nothing is opened; nested import statements open only "
-                "such q whatever the source names are (given the regenerated facts about rt_general.go). Model tied to the code by "
-                "an exhaustive-for-short / random-for-long differential run that compares the string reaching ReadFile and the "
-                "returned content / error with the model's prediction, per path."),
-    level_note=("Trusted: Lean kernel + propext/Classical.choice/Quot.sound; the correspondence harness and the verifhook point "
-                "c17.open (placed directly before ReadFile; it reports the variable, the extracted fact says the call's argument is "
-                "that variable); the kernel's path walk = the lexical walk on cleaned paths without symbolic links; ReadFile opens "
-                "its argument; the go/ast fact extractors. Not checked: statelessness of Resolve. Lexical property (symbolic links "
-                "out of scope); Unix separators."),
+    technique=("Lean 4 theorems over an element-list model AND a byte-level model (Go's index loops, proved equal) of filepath.Clean/"
+               "Join/Rel, of FileImportLocator.Resolve and of the import statement + one-sided differential correspondence with Go's "
+               "filepath and with Resolve / import / the command line tool in a real directory tree, observing the open itself (hook) "
+               "and, on a sample, every file system call (strace); regenerated three-valued source facts"),
+    level_text=("Proof about the model: for all byte strings root and p, if the MODEL of Resolve (byte-level or element-level) opens q "
+                "then q is cleaned, has the cleaned root's elements as a prefix followed only by ordinary names, and the node it denotes "
+                "from any working directory is the root's node extended downwards; otherwise nothing is opened; nested import statements "
+                "open only such q whatever the source names are, PROVIDED the regenerated fact establishes that importRuntime.Eval calls "
+                "the configured locator. Tie: every string the real code hands to the open is judged against the proved Spec and every "
+                "returned content against the file the path names, exhaustively for short and randomly for long paths; the model's own "
+                "prediction is compared too, differences the property allows are noted, not failed."),
+    level_note=("Trusted: Lean kernel + propext/Classical.choice/Quot.sound; the correspondence harness, the verifhook point c17.open "
+                "(mandatory; it reports the variable, the source fact says the read's argument is that local variable), strace for the "
+                "sampled lines; the kernel's path walk = the lexical walk on cleaned paths without symbolic links; ReadFile opens its "
+                "argument; the go/ast fact extractors (no go/types; 'unknown' is not an alarm). 'No file access besides the hooked read' "
+                "rests on the source fact + the strace sample, not on a proof. Lexical property (symbolic links out of scope); Unix "
+                "separators; sequential use plus two-goroutine lines."),
 )
 
 
